@@ -8,7 +8,7 @@ import pathlib
 import time
 
 VERIF = pathlib.Path(__file__).resolve().parent.parent
-EVIDENCE_DIR = VERIF / "evidence"
+EVIDENCE_DIR = pathlib.Path(os.environ.get("GSVERIF_EVIDENCE_DIR") or (VERIF / "evidence"))
 KNOWN = VERIF / "known_findings.json"
 
 
